@@ -53,12 +53,16 @@ def rot_kv(r):
 def model_text(d):
     """mkmodel.h description of one model table of the specification"""
     L = ["option timestep=0.25 gravity=0,0,0", "compiler degree=1"]
+    joints = []
     for name in d["order"]:
         b = d["bodies"][name]
-        L.append("body name=%s parent=%s pos=%s%s mocap=%d" % (
-            name, b["parent"], ",".join(q4(x) for x in b["pos"]), rot_kv(b["rot"]), 1 if b["mocap"] else 0))
+        # explicit inertia: geoms whose group is outside 0..5 do not contribute to the inferred body mass
+        L.append("body name=%s parent=%s pos=%s%s mocap=%d%s" % (
+            name, b["parent"], ",".join(q4(x) for x in b["pos"]), rot_kv(b["rot"]), 1 if b["mocap"] else 0,
+            " explicitinertial=1 mass=1 inertia=1,1,1" if b["joint"] == "slide" else ""))
         if b["joint"] == "slide":
-            L.append("joint body=%s name=j_%s type=2 axis=0,0,1" % (name, name))
+            L.append("joint body=%s name=j_%s type=2 axis=0,0,1 group=%d" % (name, name, d["jgroups"][len(joints)]))
+            joints.append("j_" + name)
     for kind in ("geom", "site"):
         for i, e in enumerate(d[kind + "s"]):
             size = list(e["size"]) + [0] * (3 - len(e["size"]))
@@ -68,6 +72,12 @@ def model_text(d):
             if kind == "geom":
                 ln += " contype=0 conaffinity=0"
             L.append(ln)
+    for i, t in enumerate(d["tendons"]):
+        L.append("tendon name=t%d group=%d" % (i, t["group"]))
+        L.append("wrapsite tendon=t%d site=s%d" % (i, t["s1"]))
+        L.append("wrapsite tendon=t%d site=s%d" % (i, t["s2"]))
+    for i, a in enumerate(d["acts"]):
+        L.append("actuator name=a%d trntype=0 target=%s group=%d" % (i, joints[a["joint"]], a["group"]))
     return L
 
 
@@ -75,8 +85,12 @@ def bits(s):
     return sum(1 << int(g) for g in s)
 
 
+SOURCEBIT = {"joint": 1, "tendon": 2, "actuator": 4}
+
+
 def vopt_cmd(o):
-    return "vopt %d %d %d" % (bits(o["gmask"]), bits(o["smask"]), 1 if o["static"] else 0)
+    return "vopt %d %d %d %d %d %d %d" % (bits(o["gmask"]), bits(o["smask"]), 1 if o["static"] else 0, bits(o["jmask"]),
+                                        bits(o["tmask"]), bits(o["amask"]), sum(SOURCEBIT[f] for f in o["flags"]))
 
 
 def call_cmd(ev, slot):
@@ -120,8 +134,8 @@ def verdict(ev, got, defs):
             return "category", "slot %d (%s %d) has category %s, specification %d" % (k, kind, oid, f[2], cat)
         if int(f[3]) != k:
             return "segid", "slot %d has segid %s" % (k, f[3])
-        if k < n0:
-            continue                       # kept from before the call: not re-posed by mjv_addGeoms
+        if k < n0 or kind not in ("geom", "site"):
+            continue                       # kept from before the call, or a connector whose shape is not modelled
         p = poses[kind][oid]
         if int(f[4]) != GEOMTYPE[p["type"]]:
             return "type", "slot %d (%s %d) has type %s, specification %s" % (k, kind, oid, f[4], p["type"])
@@ -147,8 +161,9 @@ def feature(ev):
 def run(ctx):
     exe = build.build_harness("scene_drv", [os.path.join(VERIF, "harness", "scene_drv.cc")],
                               extra=tladump.harness_digest_flag())
-    ctx.assume("all visualization flags except STATIC are off, label and frame modes are none, no perturbation: the "
-               "geom sources are the model's geoms and sites",
+    ctx.assume("all visualization flags except STATIC (and JOINT / TENDON / ACTUATOR on the model with out-of-range groups) are "
+               "off, label and frame modes are none, no perturbation: the geom sources are the model's geoms and sites, "
+               "and on that model its spatial tendons, joints and actuators (identity and order only, not their shapes)",
                "models are the tables of Scene.tla (bodies with slide joint / welded / static / mocap; plane, box, "
                "sphere, capsule, cylinder, ellipsoid geoms; groups 0..5; alpha 0 or 1), positions in quarter units",
                "scene geoms are float32: positions, orientations and sizes are compared to 2e-6")
@@ -164,9 +179,11 @@ def run(ctx):
     jobs = {
         "Def": lambda: tlc.dump_states(SPEC, os.path.join(TLA, "Scene_Def.cfg"), workers=2, timeout=900),
         "MC": lambda: tladump.run_dump(SPEC, os.path.join(TLA, "Scene_MCQ.cfg" if ctx.quick else "Scene_MC.cfg"),
-                                       timeout=2400, coverage=True, workers=6, select=sel),
-        "MCB": lambda: tladump.run_dump(SPEC, os.path.join(TLA, "Scene_MCB.cfg"), timeout=2400, coverage=True,
+                                       timeout=2400, coverage=False, workers=6, select=sel),
+        "MCB": lambda: tladump.run_dump(SPEC, os.path.join(TLA, "Scene_MCB.cfg"), timeout=2400, coverage=False,
                                         workers=4, select=sel),
+        "MCD": lambda: tladump.run_dump(SPEC, os.path.join(TLA, "Scene_MCD.cfg" if ctx.quick else "Scene_MCDT.cfg"),
+                                        timeout=2400, coverage=False, workers=4, select=sel),
         "Neg": lambda: tlc.run(SPEC, os.path.join(TLA, "Scene_Neg.cfg"), timeout=900, workers=2),
         "Sim": lambda: tladump.simulate(SPEC, os.path.join(TLA, "Scene_Sim.cfg"), num=nsim, depth=400,
                                         seed=ctx.seed + 1, timeout=2400, select=simsel),
@@ -188,10 +205,13 @@ def run(ctx):
     if not defs["text"]:
         raise Machinery("no model definition emitted")
     slots = {m: i for i, m in enumerate(sorted(defs["text"]))}
-    walk = ["SourceDone", "Skip", "Overflow", "Acquire", "EndCall"]
     cases = []
     try:
-        for k, need in (("MC", ["BeginUpdate"] + walk), ("MCB", ["BeginUpdate", "BeginAdd"] + walk)):
+        # TLC's per-action coverage statistics are not collected (on this specification they multiply the cost of a run by
+        # three to six); that every walk action is taken is established on the returned calls below: a kept element needs
+        # Acquire, an absent one with status 0 needs Skip, a status flip needs Overflow, any returned call needs
+        # BeginUpdate / BeginAdd, SourceDone and EndCall
+        for k, need in (("MC", []), ("MCB", []), ("MCD", [])):
             res, states, cleanup = out[k]
             ctx.tlc_ok(res, "Scene_" + k, need_actions=need)
             for st in states():
@@ -199,6 +219,27 @@ def run(ctx):
     finally:
         out["MC"][2]()
         out["MCB"][2]()
+        out["MCD"][2]()
+    kinds_of_case = {"add": any(ev["op"] == "add" for ev in cases),
+                     "overflow": any(ev["ret"]["status"] == 1 and ev["in"]["status"] == 0 for ev in cases),
+                     "kept": any(len(ev["ret"]["items"]) > 0 for ev in cases),
+                     "empty": any(len(ev["ret"]["items"]) == 0 for ev in cases),
+                     "sticky": any(ev["in"]["status"] == 1 for ev in cases),
+                     "skipped": any(ev["ret"]["status"] == 0 and ev["op"] == "update" and
+                                    len(ev["ret"]["items"]) < sum(defs["n"][ev["in"]["model"]]) for ev in cases)}
+    if not all(kinds_of_case.values()):
+        raise Machinery("vacuity: returned calls lack %s" % [k for k, v in kinds_of_case.items() if not v])
+    # vacuity guard of the group law: for every kind of element the explored options must contain one where an element
+    # with a group above 5 (below 0) is walked while the flag it must follow differs from the flag stored next to it
+    seen_wit = set()
+    for ev in cases:
+        for w in ev.get("wit", ()):
+            seen_wit.add(tuple(w))
+    missing = [(k, side) for k in ("geom", "site", "tendon", "joint", "actuator") for side in ("hi", "lo")
+               if (k, side) not in seen_wit]
+    if missing:
+        raise Machinery("vacuity: no explored option separates an out-of-range group from the neighbouring group vector "
+                        "for %s" % missing)
     r = out["Neg"]
     ctx.cov["tlc_runs"].append({"name": "Scene_Neg", "generated": r.generated, "distinct": r.distinct,
                                 "depth": r.depth, "wall_s": round(r.wall, 2), "violation": r.violation})
